@@ -47,6 +47,11 @@ fn scale_programs() -> Vec<(String, String)> {
         v.push((format!("long-function-body:{n}"), format!("functie f(a) {{ als a > 100 {{ antwoord a }}; {filler} a }}; [f(1), f(200)]")));
         v.push((format!("stop-over-long-body:{n}"), format!("stel a = 0; stel i = 0; zolang ja {{ i = i + 1; als i == 3 {{ stop }}; {filler} }}; [a, i]")));
     }
+    for n in [1_000usize, 33_000, 70_000] {
+        // a call made from far into straight-line code, and code that goes on after it
+        let filler = "ja; ".repeat(n);
+        v.push((format!("call-after-long-code:{n}"), format!("functie f(x) {{ print(\"in f {{}}\", x); x + 1 }}; stel a = f(1); {filler}stel b = f(a); {filler}[a, b, f(b)]")));
+    }
     for n in [10usize, 100, 255] {
         let params: Vec<String> = (0..n).map(|i| format!("p{i}")).collect();
         v.push((format!("parameters:{n}"), format!("functie f({}) {{ [p0, p{}, p{}] }}; f({})", params.join(", "), n / 2, n - 1, (0..n).map(|i| format!("{i} * 2")).collect::<Vec<_>>().join(", "))));
